@@ -1,0 +1,33 @@
+//go:build verif
+
+package tls
+
+// Verification-only exports for the session-resumption checks (build tag `verif`).
+// Add-only: nothing here is compiled without the tag and no existing line changes.
+
+// VerifPskExtLen exposes pskExtLen.
+func VerifPskExtLen(identities []PskIdentity, binders [][]byte) int {
+	return pskExtLen(identities, binders)
+}
+
+// VerifSuiteKnown12 reports whether cipherSuiteByID (the lookup behind mutualCipherSuite)
+// knows the suite id.
+func VerifSuiteKnown12(id uint16) bool { return cipherSuiteByID(id) != nil }
+
+// VerifSuiteHash13 returns the hash size of a TLS 1.3 suite, or 0 when
+// cipherSuiteTLS13ByID does not know the id.
+func VerifSuiteHash13(id uint16) int {
+	s := cipherSuiteTLS13ByID(id)
+	if s == nil {
+		return 0
+	}
+	return s.hash.Size()
+}
+
+// VerifClientSessionCacheKey exposes clientSessionCacheKey.
+func (c *Conn) VerifClientSessionCacheKey() string { return c.clientSessionCacheKey() }
+
+// VerifSkipResumptionOnNilExtension exposes the flag UClient derives from the id and Config.
+func (uconn *UConn) VerifSkipResumptionOnNilExtension() bool {
+	return uconn.skipResumptionOnNilExtension
+}
